@@ -275,6 +275,7 @@ def run_cases(ctx, binary, cases, procs, par, deadline, tag):
     for ev, crash in res:
         events.update(ev)
         if crash:
+            crash.unfinished = {k: e for k, e in ev.items() if not complete(e) and e and e[0]["ev"] == "reset"}
             crashes.append(crash)
     return events, crashes
 
@@ -426,14 +427,14 @@ def classify(ctx, binary, cases, traces, rejected, hw, deadline):
         if acc:
             k = sorted(acc, key=lambda x: len(traces[x]))[0]
             f = vlib.open_finding(ctx.prop, dev)
-            ctx.known_finding(dev, "%s; %d trace(s) of this run, e.g. %s" % (
+            known(ctx, dev, "%s; %d trace(s) of this run, e.g. %s" % (
                 f.get("what", ""), len(acc), json.dumps(brief(traces[k]), separators=(",", ":"))))
             ctx.cov.setdefault("explained_by_open_finding", {})[dev] = len(acc)
         left -= acc
     if left and len(open_devs) > 1:
         acc, _ = validate(ctx, {k: traces[k] for k in left}, on=open_devs, label="explain-all-open")
         for dev in open_devs if acc else []:
-            ctx.known_finding(dev, "%s (in combination with the other open findings)" % vlib.open_finding(ctx.prop, dev).get("what", ""))
+            known(ctx, dev, "%s (in combination with the other open findings)" % vlib.open_finding(ctx.prop, dev).get("what", ""))
         left -= acc
     # neither the property nor an open finding explains these: reproduce from a clean start
     for k in sorted(left, key=str)[:6]:
@@ -464,49 +465,59 @@ def classify(ctx, binary, cases, traces, rejected, hw, deadline):
                                   "case=%s trace=%s" % (why, tries, json.dumps(case), json.dumps(traces[k])))
 
 
+_reported = set()
+
+
+def known(ctx, dev, what):
+    """One KNOWN-FINDING line per entry and run."""
+    if dev not in _reported:
+        _reported.add(dev)
+        ctx.known_finding(dev, what)
+
+
 def brief(recs):
     return [[r["ev"]] + [r[x] for x in ("w", "b", "what") if x in r] for r in recs if r["ev"] not in ("opened", "written")]
 
 
-def handle_crashes(ctx, binary, crashes, events, cases):
-    """A harness process died from a panic inside the stream: real-code behaviour.  The unfinished traces
-    of that process are the candidates it belongs to."""
-    if not crashes:
-        return
-    unfinished = {k: e for k, e in events.items() if not complete(e) and e and e[0]["ev"] == "reset"}
-    sc = [c for c in crashes if c.send_closed]
-    other = [c for c in crashes if not c.send_closed]
+def handle_crashes(ctx, binary, crashes, cases):
+    """A harness process died from a panic inside the stream: real-code behaviour.  Traces run one at a
+    time per process, so the unfinished trace of that process is the one the panic belongs to."""
     dev = "DEV_HandlerAddedAfterWait"
-    if sc:
-        cands = {k: to_records(e, 1, panic=True) for k, e in unfinished.items() if MODEL_KIND[e[0]["real"]] == "sock"}
-        explained = False
-        if cands and dev in vlib.open_devs(ctx.prop):
-            acc, _ = validate(ctx, cands, on=[dev], label="explain-panic")
-            if acc:
-                k = sorted(acc, key=lambda x: len(cands[x]))[0]
-                ctx.known_finding(dev, "%s; witness of this run: %s" % (
-                    vlib.open_finding(ctx.prop, dev).get("what", ""), json.dumps(brief(cands[k]), separators=(",", ":"))))
-                ctx.cov.setdefault("explained_by_open_finding", {})[dev] = len(sc)
-                explained = True
-        if not explained:
-            k = sorted(cands, key=lambda x: len(cands[x]))[0] if cands else None
-            ctx.violation({"case": cases.get(k), "trace": cands.get(k), "crash": sc[0].stack, "crashes_in_this_run": len(sc)},
-                          "the process died with `panic: send on closed channel` inside the socket stream (a handler sent "
-                          "after close(lines)); spec/ConnStream.tla NoSendAfterClose")
-    if other:
-        # any other panic inside internal/tailer: re-execute the cases that were in flight
-        base = [cases[k] for k in sorted(unfinished, key=str) if k in cases][:24]
-        again = [dict(c, id=5000 + i) for i, c in enumerate(base * 12)]
+    reported = 0
+    for cr in crashes:
+        unf = cr.unfinished
+        base = [cases[k] for k in sorted(unf, key=str) if k in cases][:24]
+        if cr.send_closed:
+            cands = {k: to_records(e, 1, panic=True) for k, e in unf.items() if MODEL_KIND[e[0]["real"]] == "sock"}
+            if cands and dev in vlib.open_devs(ctx.prop):
+                acc, _ = validate(ctx, cands, on=[dev], label="explain-panic")
+                if acc and len(acc) == len(cands):
+                    k = sorted(acc, key=lambda x: len(cands[x]))[0]
+                    known(ctx, dev, "%s; witness of this run: %s" % (
+                        vlib.open_finding(ctx.prop, dev).get("what", ""), json.dumps(brief(cands[k]), separators=(",", ":"))))
+                    d = ctx.cov.setdefault("explained_by_open_finding", {})
+                    d[dev] = d.get(dev, 0) + 1
+                    continue
+        if reported >= 2:
+            continue
+        # not explained by an open finding: re-execute the case(s) that were in flight
+        again = [dict(c, id=5000 + i) for i, c in enumerate(base * (400 // max(1, len(base))))]
         crashes2 = []
-        for _ in range(6):
+        for _ in range(4):
             if crashes2 or not again:
                 break
-            _ev, crashes2 = run_cases(ctx, binary, again, procs=min(vlib.NCPU, 4), par=6, deadline=10, tag="recrash")
+            _ev, crashes2 = run_cases(ctx, binary, again, procs=min(vlib.NCPU, 4), par=max(1, min(6, len(base))), deadline=10,
+                                      tag="recrash")
+        what = "the stream's own code panicked: %s" % cr.stack.splitlines()[0]
+        if cr.send_closed:
+            what += " (a handler sent after close(lines); spec/ConnStream.tla NoSendAfterClose)"
         if crashes2:
-            ctx.violation({"cases_in_flight": again, "crash": other[0].stack, "crash_on_reexecution": crashes2[0].stack},
-                          "the stream's own code panicked (%s)" % other[0].stack.splitlines()[0])
+            reported += 1
+            ctx.violation({"cases_in_flight": base, "trace": {str(k): to_records(e, 1, panic=cr.send_closed) for k, e in unf.items()},
+                           "crash": cr.stack, "crash_on_reexecution": crashes2[0].stack}, what)
         else:
-            raise vlib.InfraError("a harness process died from a panic inside internal/tailer that did not reproduce:\n" + other[0].stack)
+            raise vlib.InfraError("a harness process died from a panic inside internal/tailer that did not reproduce in %d "
+                                  "re-executions:\n%s" % (len(again) * 4, cr.stack))
 
 
 def run(ctx):
@@ -519,11 +530,15 @@ def run(ctx):
     cases = {}
     for i in range(1, n + 1):
         cases[i] = gen_case(rng, i, KINDS[i % len(KINDS)])
-    wid = n + 1
-    cases[wid] = witness_noconn(wid, "unix")
-    cases[wid + 1] = witness_noconn(wid + 1, "tcp")
     procs = min(vlib.NCPU, 8)
-    events, crashes = run_cases(ctx, binary, list(cases.values()), procs=procs, par=6, deadline=deadline, tag="random")
+    # one trace at a time per process: a panic inside the stream is then attributable to exactly one trace
+    events, crashes = run_cases(ctx, binary, list(cases.values()), procs=procs, par=1, deadline=deadline, tag="random")
+    wid = n + 1
+    wit = {wid: witness_noconn(wid, "unix"), wid + 1: witness_noconn(wid + 1, "tcp")}
+    cases.update(wit)
+    wev, wcr = run_cases(ctx, binary, list(wit.values()), procs=1, par=2, deadline=deadline, tag="witness")
+    events.update(wev)
+    crashes += wcr
     # the race hunt: sequential in its own processes; only the last traces of each process are validated
     nh = 16000 if ctx.thorough else 3000
     hunts = {i: hunt_case(rng, i) for i in range(10001, 10001 + nh)}
@@ -560,7 +575,7 @@ def run(ctx):
     if not acc:
         raise vlib.InfraError("no trace at all was accepted - harness or trace specification broken")
     selftest(ctx, traces, [k for k in sorted(acc)])
-    handle_crashes(ctx, binary, crashes, events, cases)
+    handle_crashes(ctx, binary, crashes, cases)
     rejected = sorted(set(traces) - acc)
     ctx.cov["rejected_by_corrected_design"] = len(rejected)
     classify(ctx, binary, cases, traces, rejected, hw, deadline)
